@@ -854,8 +854,11 @@ class C13(Prop):
     level_text = ("Theorems C13_* (coq/Props/C13.v): for V5/V7 the common structure is version, sys_up_time and one flow per record, in order, every "
                   "numeric field present and equal to the record's field, MACs absent; for V9/IPFIX one flow per decoded record map built by selecting "
                   "fields by type (last of a type wins), IPv4 before IPv6; error elements convert to an error; the flat view is the in-order concatenation "
-                  "of the flows of the non-error packets. Known classes (crate deviations): V9 protocol and first/last decoded as non-numeric kinds, "
-                  "ports of width other than 2, IPFIX one flow per field.")
+                  "of the flows of the non-error packets. C13_v9_protocol_and_times (after repair 39ac76d): a V9 record's protocol (decoded as a name) and "
+                  "first/last switched (decoded as durations) reach the view as the protocol's number and name and the millisecond counts; "
+                  "C13_field_anchors pins the projected names to their RFC 3954 / IANA element numbers. Known classes (crate deviations, witness "
+                  "C13_refuted): protocol byte 145 (Unknown keeps no number), durations of 2^32 ms or more, ports of width other than 2, IPFIX one "
+                  "flow per field.")
     level_note = "the V9/IPFIX theorems describe the selection the conversion performs on what the decoders produce; the deviations from the property are classes K_C13_*"
     rule = ("conformant sequences of 1-4 packets (templates with random subsets and orders of the projected fields, both address families), sometimes "
             "with a garbage packet in the middle; parser 0 gets parse_bytes + as_netflow_common, parser 1 parse_bytes_as_netflow_common_flowsets on "
